@@ -697,3 +697,14 @@ _amend("C13", "One evaluation = one (session, budget ",
        "For failing forms the number of frames of the recorded stack trace is compared as well. One evaluation = one (session, budget ")
 _amend("C17", "Uses are generated from each rule's pattern",
        "One datum in twelve of a use is a list headed by a keyword (prelude macro, special form, the macro itself), which inside the quoted expansion must come back untouched. Uses are generated from each rule's pattern")
+_amend("C07", "Every 1000th case is an accumulation run comparing 10 with 1000 consecutive failures.",
+       "Every 1000th case is an accumulation run comparing 10 with 1000 consecutive failures (stack capacity, stack pointer, heap capacity right after the failures, live cells after a collection, frames of the next trace).")
+_amend("C12", "part 2: six programs under schedules",
+       "part 1d: computations whose length grows with N and whose live set does not (a delay-force chain, a stream walk, allocating mutual tail calls) at N and 10N. part 2: six programs under schedules")
+_amend("C12", "code and lambdas compiled by eval,", "code and lambdas compiled by eval (also with a fresh parameter name per iteration),")
+_amend("C15", "integer->char (across the surrogate range, above 0x10FFFF, negative)", "integer->char (across the surrogate range, above 0x10FFFF, beyond 32 bits with valid low bits, negative)")
+_amend("C18", "otherwise the spelling marwood writes for the symbol, if it reads back as that symbol)",
+       "otherwise the spelling marwood writes for the symbol, if it reads back as that symbol; one case in three writes the literal with another spelling of the same name: a hex escape re-cased and zero-padded, or a plain character written as an escape)")
+_amend("C19", "memq/member/memv, list-tail/list-ref}", "memq/member/memv, list-tail/list-ref, a dotted tail read from text and returned as a value}")
+_amend("C20", "One evaluation = one (text, cursor) pair",
+       "Part 4: a quarter of the constructed texts are typed character by character into one highlighter value (cursor at and just before the end), after which the cursor walks back over the finished line. One evaluation = one (text, cursor) pair")
